@@ -91,13 +91,16 @@ class Ctx:
             from .build import IRSPEC
             src_ll = base + ".raw.ll"
             for rnd in range(3):
-                p = subprocess.run([IRSPEC, src_ll, base + ".spec.ll"], capture_output=True, text=True)
+                p = subprocess.run([IRSPEC, src_ll, base + ".spec.ll", "-nounroll"], capture_output=True, text=True)
                 if p.returncode:
                     raise AnalysisBroken("irspec failed on fixture %s: %s" % (name, p.stderr[-200:]))
-                if not any(l.startswith(("inline ", "thread ")) for l in p.stderr.splitlines()) or rnd == 2:
-                    break
                 os.replace(base + ".spec.ll", base + ".spec0.ll")
                 src_ll = base + ".spec0.ll"
+                if not any(l.startswith(("inline ", "thread ")) for l in p.stderr.splitlines()):
+                    break
+            p = subprocess.run([IRSPEC, src_ll, base + ".spec.ll"], capture_output=True, text=True)
+            if p.returncode:
+                raise AnalysisBroken("irspec failed on fixture %s: %s" % (name, p.stderr[-200:]))
             p = subprocess.run([OPT, "-passes=mem2reg", "-S", base + ".spec.ll", "-o", base + ".ll"], capture_output=True, text=True)
         else:
             cmd = [CLANG, "-std=c99"] + inc + list(flags) + ["-O3", "-g", "-fno-discard-value-names", "-S", "-emit-llvm", src, "-o", base + ".ll", "-w"]
